@@ -340,7 +340,7 @@ func genSorted(r *hx.Rng, wantLiveDelete bool) ([]byte, []sOp) {
 
 func main() {
 	out := hx.Flags("C07", 300)
-	out.Rule = "each case: a generated .ecx (0..40 strictly sorted entries over keys 1..30 plus far keys 2^32-1,2^32,2^32+5,2^40,2^63,2^64-1; offsets up to the build's maximum, sizes incl. 0, 2^31-1, tombstone and other negatives; 1 in 10 malformed: unsorted/duplicate keys, zero offset, trailing partial entry), optional initial journal (1 in 6; 1 in 12 with a partial record), then for indexes of <= 8 entries EVERY present key and every neighbour key (k-1,k+1,0,2^64-1) deleted in turn with Find before/after and a byte snapshot of .ecx/.ecj after each delete, for larger indexes a random third of those keys; finally Find of every probe key and a snapshot; RebuildEcxFile on the original .ecx with the final journal; WriteIdxFileFromEcIndex; plus a SortedFileNeedleMap over a generated .idx (1..12 puts/overwrites/tombstones in any key order) with Get of 16 keys and 1..4 Deletes (of live keys only in 1 case out of 4: known finding 0). First three cases are fixed witnesses. non-trivial = well-formed index with at least one delete of a present key; distinct = canonical bytes + op list"
+	out.Rule = "each case: a generated .ecx (0..40 strictly sorted entries over keys 1..30 plus far keys 2^32-1,2^32,2^32+5,2^40,2^63,2^64-1; offsets up to the build's maximum, sizes incl. 0, 2^31-1, tombstone and other negatives; 1 in 10 malformed: unsorted/duplicate keys, zero offset, trailing partial entry), optional initial journal (1 in 6; 1 in 12 with a partial record), then for indexes of <= 8 entries EVERY present key and every neighbour key (k-1,k+1,0,2^64-1) deleted in turn with Find before/after and a byte snapshot of .ecx/.ecj after each delete, for larger indexes a random third of those keys; finally Find of every probe key and a snapshot; RebuildEcxFile on the original .ecx with the final journal; WriteIdxFileFromEcIndex; plus a SortedFileNeedleMap over a generated .idx (1..12 puts/overwrites/tombstones in any key order) with Get of 16 keys and 1..4 Deletes (live keys included in 3 cases out of 4), each followed by a Get; the final .idx and .sdx are compared byte for byte. First three cases are fixed witnesses. non-trivial = well-formed index with at least one delete of a present key; distinct = canonical bytes + op list"
 	root := hx.NewRng(out.Seed)
 	out.Extra["offset_size"] = types.OffsetSize
 	out.Extra["entry_size"] = types.NeedleMapEntrySize
@@ -351,7 +351,7 @@ func main() {
 	// 0: the repaired callback-offset defect: delete key 3 of a 5-entry .ecx
 	runCase(out, caseIn{ecx: encEntries(five), ops: []ecOp{{1, 3}, {0, 3}, {2, 0}, {1, 1}, {1, 2}, {1, 3}, {1, 4}, {1, 5}},
 		idx: plainIdx, sops: []sOp{{key: 1}, {key: 2}}, kind: "witness-callback-offset"})
-	// 1: known finding 0: SortedFileNeedleMap.Delete of a live key
+	// 1: the repaired SortedFileNeedleMap.Delete of a live key (.sdx was read-only, tombstone went to .idx offset 0)
 	runCase(out, caseIn{ecx: encEntries(five[:2]), ops: []ecOp{{2, 0}},
 		idx: plainIdx, sops: []sOp{{key: 1}, {del: true, key: 1, off: 3}, {key: 1}}, kind: "witness-sorted-delete"})
 	// 2: every key of a 5-entry index with the largest offsets deleted in turn
@@ -443,7 +443,7 @@ func main() {
 			ops = append(ops, ecOp{1, k})
 		}
 		ops = append(ops, ecOp{2, 0})
-		idx, sops := genSorted(r, i%4 == 3)
+		idx, sops := genSorted(r, i%4 != 0) // deletes of live keys in 3 cases out of 4
 		out.Count("kind-ecj:"+map[bool]string{true: "preseeded", false: "empty"}[len(ecj) > 0], 1)
 		runCase(out, caseIn{ecx: ecx, ecj: ecj, ops: ops, idx: idx, sops: sops, kind: kind})
 	}
